@@ -331,7 +331,15 @@ func zzC03Num(typ int, v int) any {
 	return float32(v)
 }
 
-const zzC03ReuseTpl = `<p v-if="item.On">ON</p><p v-else>OFF</p>` +
+// the exported field is reached by its json name although an unexported field is spelled like it
+type zzC03Tagged struct {
+	Done bool `json:"done"`
+	done int
+	Name string `json:"name"`
+}
+
+const zzC03ReuseTpl = `<em v-if="job.done">JD</em><em v-else-if="job.name">JN</em><em v-else>JX</em><u v-show="job.done" :class="{d: job.done}">u</u>` +
+	`<p v-if="item.On">ON</p><p v-else>OFF</p>` +
 	`<q v-if="n == 1">ONE</q><q v-else-if="n == 2">TWO</q><q v-else>OTHER</q>` +
 	`<s v-show="!item.On">S</s>` +
 	`<b :class="{neg: n < 1}">B</b>` +
@@ -364,7 +372,8 @@ func VerifC03_Reuse() {
 	}
 	for round := 0; round < 2; round++ {
 		shape, on, typ, v := shapes[round], ons[round], typs[round], vs[round]
-		data := map[string]any{"item": zzC03Item(shape, on), "n": zzC03Num(typ, v), "items": mixed}
+		job := zzC03Tagged{Done: on, Name: "n"}
+		data := map[string]any{"item": zzC03Item(shape, on), "n": zzC03Num(typ, v), "items": mixed, "job": job, "jobs": []zzC03Tagged{job}}
 		w := &zzWriter{limit: 1 << 20}
 		err := tpl.New().Fill(data).RenderString(contextBackground(), w, zzC03ReuseTpl)
 		out := zzFlat(string(w.got))
@@ -373,12 +382,15 @@ func VerifC03_Reuse() {
 			zzNote("err", err.Error())
 		}
 		zzAssert(err == nil, "C03.reuse.render-error")
+		zzAssert(strings.Contains(out, "<em>JD</em>") == on && strings.Contains(out, "<em>JN</em>") == !on, "C03.reuse.v-if-json-name")
+		zzAssert(strings.Contains(out, `class="d"`) == on, "C03.reuse.class-json-name")
 		zzAssert(strings.Contains(out, "<p>ON</p>") == on, "C03.reuse.v-if-field")
 		zzAssert(strings.Contains(out, "<p>OFF</p>") == !on, "C03.reuse.v-else-field")
 		zzAssert(strings.Contains(out, "ONE") == (v == 1), "C03.reuse.v-if-comparison")
 		zzAssert(strings.Contains(out, "TWO") == (v == 2), "C03.reuse.v-else-if-comparison")
 		zzAssert(strings.Contains(out, "OTHER") == (v == 0), "C03.reuse.v-else-comparison")
-		zzAssert(strings.Contains(out, "display:none") == on, "C03.reuse.v-show-negation")
+		zzAssert(strings.Contains(out, `<sstyle="display:none;">`) == on, "C03.reuse.v-show-negation")
+		zzAssert(strings.Contains(out, `<ustyle="display:none;"`) == !on, "C03.reuse.v-show-json-name")
 		zzAssert(strings.Contains(out, `class="neg"`) == (v < 1), "C03.reuse.class-object")
 		zzAssert(strings.Contains(out, "<ul>"+wantLoop+"</ul>"), "C03.reuse.loop-over-mixed-items")
 	}
